@@ -352,7 +352,31 @@ def cone_stream(ctx, n):
                          {"not-on": np.round(bad_on[:2], 4).tolist(), "wrongly-on": np.round(bad_miss[:1], 4).tolist()}, replay=[desc])
 
 
+def normalized_collection(ctx, n):
+    """QuadricCollection(matrices, normalize_matrix=True) is, position by position, the quadric of the given matrix"""
+    import geometer as g
+    from geometer.curve import QuadricCollection
+    rng = ctx.rng
+    for k in range(n):
+        dim = rng.choice([2, 3])
+        m = rng.randint(1, 3)
+        mats = []
+        while len(mats) < m:
+            a = np.array([[float(rng.randint(-3, 3)) for _ in range(dim + 1)] for _ in range(dim + 1)])
+            a = a + a.T
+            if abs(np.linalg.det(a)) > 0.5:
+                mats.append(a)
+        arr = np.stack(mats)
+        desc = f"QuadricCollection(normalize_matrix=True) of {m} matrices dim={dim}: {arr.tolist()}"
+        ctx.case(desc)
+        ctx.count("normalize-collection")
+        r = call_impl(lambda: QuadricCollection(arr, normalize_matrix=True))
+        if r[0] != "ok" or not all(proj_close_nn(np.asarray(r[1].array)[i], mats[i], 1e-9) for i in range(m)):
+            ctx.disagree("C13:normalize-collection", desc, "the same quadrics, rescaled", r[1:3] if r[0] != "ok" else np.asarray(r[1].array).tolist(), replay=[desc])
+
+
 def correspondence(ctx):
+    normalized_collection(ctx, ctx.budget(20, 150))
     conic_stream(ctx, ctx.budget(80, 1500))
     foci_stream(ctx, ctx.budget(40, 600))
     circle_stream(ctx, ctx.budget(120, 2000))
